@@ -89,7 +89,14 @@ class x12xml_simple(x12xml):
                     #self.writer.empty(u"ele", attrs={u'id': child_node.id})
                 else:
                     (xname, attrib) = self._get_ele_info(child_node.id)
-                    self.writer.elem(xname, seg_data.get_value('%02i' % (i + 1)), attrib)
+                    ele_data = seg_data.get('%02i' % (i + 1))
+                    if len(ele_data) > 1:
+                        # Composite data in a simple element: keep the components apart
+                        # with the separator xmlx12_simple writes, not the source's
+                        val = ':'.join([sub.get_value() for sub in ele_data])
+                    else:
+                        val = seg_data.get_value('%02i' % (i + 1))
+                    self.writer.elem(xname, val, attrib)
             else:
                 raise EngineError('Node must be a either an element or a composite')
         self.writer.pop()  # end segment
